@@ -71,12 +71,12 @@ Proof.
   match goal with |- context [?f (go_runes k)] =>
     assert (L : forall l, f l = forallb ok_rune l);
       [induction l as [|r l IH]; [reflexivity|];
-       cbn [forallb]; unfold ok_rune at 1; rewrite <- IH; cbv zeta; go_cases; reflexivity|rewrite L; clear L]
+       cbn [forallb]; unfold ok_rune at 1; rewrite <- IH; cbn beta iota zeta; go_solve|rewrite L; clear L]
   end.
   unfold go_runes. rewrite forallb_map.
   rewrite (forallb_ext' _ (in_ranges std_key_ranges)).
   - rewrite forallb_decode_ascii.
-    + unfold andb. go_cases; try reflexivity; go_arith; exfalso; lia.
+    + go_solve.
     + intros c. unfold in_ranges, std_key_ranges. cbn [existsb fst snd]. lia.
     + unfold rune_error. lia.
   - intros x. unfold ok_rune, in_ranges, std_key_ranges. cbn [existsb fst snd]. lia.
